@@ -751,7 +751,7 @@ func randomBound(r *rng.R, d []edge) *time.Time {
 
 func randomArgs(r *rng.R, d []edge) argSpec {
 	a := argSpec{After: randomCursor(r, d), Before: randomCursor(r, d), From: randomBound(r, d), To: randomBound(r, d), Info: !r.Chance(1, 8)}
-	n := rng.Pick(r, []int{0, 1, 1, 2, 2, 3, 5, 10})
+	n := rng.Pick(r, []int{0, 1, 1, 2, 2, 3, 5, 10, 1000})
 	if r.Bool() {
 		a.First = intp(n)
 	} else {
